@@ -212,6 +212,14 @@ def interleave_rules(ctx, rep):
         return
     body = se.body
     be = cfg.back_edges(body)
+    pw = pairwise_form(ctx, se)
+    if pw is not None:
+        # the same trimming done on the slice itself, two bytes at a time (slice patterns)
+        ok_, why_ = pw
+        rep.check(ok_, "interleave", fn, "linear-scan", why_, "leading-zero stripping by pairs is not `while s = [0, 0, rest..] { s = rest }`: " + why_, body.loc())
+        rep.check(ok_, "interleave", fn, "whole-secret", "the trimming starts from &self.key[..] (all 32 bytes, an even number)", "the trimmed slice is not the whole 32-byte secret", body.loc())
+        rep.check(ok_, "interleave", fn, "even-start", "pairs [0, 0] are dropped while they lead; then one more pair iff the slice still starts with 0 (an odd count of leading zeros): the start is the zero count rounded up to even", "after the pairs, the slice is not cut by one more pair exactly when it still starts with a zero byte", body.loc())
+        return _interleaved_part(ctx, rep, fn)
     # ---- (i) linear scan idiom
     good = False
     why = "no single counting loop"
@@ -396,6 +404,99 @@ def interleave_rules(ctx, rep):
             good = n == ("add", ("sym", "L"), ("rem", ("sym", "L"), ("int", 2)))
             why = "start = %s" % arith.show(n)
     rep.check(good, "interleave", fn, "even-start", why, "the slice handed on does not start at an even offset for every zero count (one more byte must be dropped iff the count is odd): " + why, body.loc())
+    return _interleaved_part(ctx, rep, fn)
+
+
+def pairwise_form(ctx, se):
+    """`let mut s = &self.key[..]; while let [0, 0, rest @ ..] = s { s = rest }
+        if let [0, _, rest @ ..] = s { s = rest }  s`
+    - None when the body is not a loop over a shrinking slice view at all, else (holds, why).
+    With an even total length this returns key[start..] for start = the number of leading zero
+    bytes rounded up to even: pairs are dropped while both bytes are zero; the loop stops at the
+    first pair with a non-zero byte (or at the end); if that pair starts with a zero the count is
+    odd and the pair goes too."""
+    body = se.body
+    be = cfg.back_edges(body)
+    if len(be) != 1:
+        return None
+    tail, head = be[0]
+    loop = cfg.natural_loop(body, be[0])
+    cand = []
+    for (hb, root), ins in se.phi_inputs.items():
+        if hb != head:
+            continue
+        ph = ("phi", se.fn, hb, root, ())
+        init = [v for p, v in ins.items() if p not in loop]
+        step = [v for p, v in ins.items() if p in loop]
+        if len(init) == 1 and len(step) == 1:
+            st_ = strip(step[0])
+            if st_[0] == "subslice" and strip(st_[1]) == ph:
+                cand.append((ph, init[0], st_))
+    if len(cand) != 1:
+        return None
+    ph, init, st_ = cand[0]
+    if st_[2:] != (2, 0, True):
+        return False, "the view is advanced by %s, not by two bytes" % (st_[2:],)
+    i0 = canon(ctx, se, init)
+    whole = i0 == ("param", 1)
+    if not whole:
+        for bb, i in se.term_info.items():
+            if i.get("k") == "call" and i["name"].endswith("::index") and "RangeFull" in str(i["args"][1]) and canon(ctx, se, i["args"][0]) == ("param", 1) and strip(i["term"]) == strip(init):
+                whole = True
+    if not whole:
+        return False, "the view does not start as the whole key (%s)" % show(i0, maxdepth=2)
+
+    def tests(blocks):
+        """{kind: (bb, continue target, other target)} for the switches on ph in `blocks`"""
+        out = {}
+        for bb in sorted(blocks):
+            i = se.term_info.get(bb, {})
+            if i.get("k") != "switch":
+                continue
+            d = util.numnorm(strip(i["discr"]))
+            tg = dict(i["targets"])
+            if d[0] == "binop" and d[1] == "Ge" and d[2] == ("len", ph) and d[3][:2] == ("int", 2) and set(tg) == {0}:
+                out.setdefault("len", (bb, i["otherwise"], tg[0]))
+            elif d[0] == "binop" and d[1] == "Lt" and d[2] == ("len", ph) and d[3][:2] == ("int", 2) and set(tg) == {0}:
+                out.setdefault("len", (bb, tg[0], i["otherwise"]))
+            elif d[0] == "cindex" and strip(d[1]) == ph and not d[3] and d[2] in (0, 1) and set(tg) == {0}:
+                out.setdefault("b%d" % d[2], (bb, tg[0], i["otherwise"]))
+        return out
+
+    inl = tests(loop)
+    if set(inl) != {"len", "b0", "b1"}:
+        return False, "the loop does not test len >= 2, s[0] == 0 and s[1] == 0 (found %s)" % sorted(inl)
+    if not all(cfg.must_pass_edge(body, (inl[k][0], inl[k][1]), tail) for k in inl):
+        return False, "a pair is dropped without all three tests"
+    n_sw = sum(1 for bb in loop if se.term_info.get(bb, {}).get("k") == "switch")
+    n_calls = sum(1 for bb in loop if se.term_info.get(bb, {}).get("k") == "call")
+    stores = [1 for (bi, si), (loc, v) in se.assigns.items() if bi in loop and loc[0] in ("deref", "index", "cindex", "field")]
+    if n_sw != 3 or n_calls or stores:
+        return False, "the loop does more than the three tests and the advance"
+    # after the loop: one more pair iff len >= 2 and s[0] == 0
+    r = strip(se.ret)
+    while r[0] in ("ref", "refv", "deref"):
+        r = strip(r[1])
+    if r[0] != "phi" or (r[2], r[3]) not in se.phi_inputs:
+        return False, "the result is not the trimmed view"
+    ins = se.phi_inputs[(r[2], r[3])]
+    after = tests([b for b in range(len(body.blocks)) if b not in loop])
+    if set(after) != {"len", "b0"}:
+        return False, "after the pairs the rest is not tested with len >= 2 and s[0] == 0 only (found %s)" % sorted(after)
+    keep = [p for p, v in ins.items() if strip(v) == ph]
+    cut = [p for p, v in ins.items() if strip(v)[0] == "subslice" and strip(strip(v)[1]) == ph and strip(v)[2:] == (2, 0, True)]
+    if len(keep) + len(cut) != len(ins) or not keep or len(cut) != 1:
+        return False, "the result is not `s` or `s[2..]`"
+    c = cut[0]
+    if not (cfg.must_pass_edge(body, (after["len"][0], after["len"][1]), c) and cfg.must_pass_edge(body, (after["b0"][0], after["b0"][1]), c)):
+        return False, "the extra pair is dropped without len >= 2 and s[0] == 0"
+    for k_ in keep:
+        if cfg.must_pass_edge(body, (after["len"][0], after["len"][1]), k_) and cfg.must_pass_edge(body, (after["b0"][0], after["b0"][1]), k_):
+            return False, "the slice is kept although it starts with a zero byte of an odd run"
+    return True, "while s = [0, 0, rest..] { s = rest }, two bytes at a time over &self.key[..]"
+
+
+def _interleaved_part(ctx, rep, fn):
     # ---- (iii) calculate_interleaved
     fn2 = "srp_internal::calculate_interleaved"
     se2 = ctx.wrap.run(fn2)
